@@ -132,6 +132,7 @@ def check(rep: vlib.Reporter, prop: Optional[str] = None) -> bool:
                          "log_tail": pr.log[-2000:]}, found_input=False)
             ok = False
         with_input: Dict[str, bool] = {}
+        explained: List[str] = []       # targets already reported: failed closed, not compiling, or with a differing input
         deferred: Dict[str, List[Tuple[str, str, str]]] = {}
         for t, kind, why in affected:
             wit = None
@@ -146,19 +147,21 @@ def check(rep: vlib.Reporter, prop: Optional[str] = None) -> bool:
                             what + f"; the real function and the model differ on {wit['input']}: real {wit['real']!r}",
                             {"kind": "srctie", "target": t, "tie": kind, "why": why, **wit})
                 with_input[GROUP[t]] = True
+                explained.append(t)
                 ok = False
             elif kind != "equivalence-proof-broken":
                 rep.finding(f"srctie:{t}:{kind}", what, {"kind": "srctie", "target": t, "tie": kind, "why": why},
                             found_input=False)
+                explained.append(t)
                 ok = False
             else:
                 deferred.setdefault(GROUP[t], []).append((t, kind, what))
         # one proof file covers several targets of this check and coqc stops at its first broken lemma: when no target of the
         # file shows a differing input, the file is reported once, under the target that lemma is about
         for f, ts in deferred.items():
-            if with_input.get(f):
-                continue
             culprit = LEMMA_TARGET.get(broken.get(f, ""), "")
+            if with_input.get(f) or culprit in explained:
+                continue        # the file stops compiling at a lemma about a target that is already reported
             t, kind, what = next((x for x in ts if x[0] == culprit), ts[0])
             rep.finding(f"srctie:{t}:{kind}", what, {"kind": "srctie", "target": t, "tie": kind, "log_tail": pr.log[-2000:]},
                         found_input=False)
@@ -324,22 +327,25 @@ def search(target: str, prop: str = "SrcTie") -> Optional[Dict[str, Any]]:
         sp = _space(target)
     except Exception as ex:  # noqa: BLE001   (the function cannot even be imported: there is nothing to run)
         raise RuntimeError(f"cannot set up the real function: {type(ex).__name__}: {ex}") from ex
-    ok, log = vlib.make_targets([r.replace("MV.", "").replace(".", "/") + ".vo" for r in sp["req"]])
-    if not ok:
-        raise RuntimeError("model does not build: " + log[-300:])
+    if sp["req"]:
+        ok, log = vlib.make_targets([r.replace("MV.", "").replace(".", "/") + ".vo" for r in sp["req"]])
+        if not ok:
+            raise RuntimeError("model does not build: " + " ".join(log[-300:].split()))
     obs = [_obs(lambda i=i: sp["real"](i)) for i in sp["inputs"]]
     terms = [sp["term"](i, o) for i, o in zip(sp["inputs"], obs)]
     bad, _ = vlib.run_cases(prop, "srctie_" + target, sp["req"], "chk", terms, case_type=sp["type"], extra_defs=sp["defs"],
                             shard=500)
     if not bad:
         return None
-    k = min(bad, key=lambda j: (len(json.dumps(sp["inputs"][j])), j))
+    # the smallest differing input, preferring one without an empty component (an empty uuid set / tuple is a corner case)
+    k = min(bad, key=lambda j: (any(v in ([], "") for v in sp["inputs"][j].values()), len(json.dumps(sp["inputs"][j])), j))
     return {"input": sp["inputs"][k], "real": obs[k], "differing_inputs": len(bad), "inputs_tried": len(terms)}
 
 
-def replay(r: Dict[str, Any]) -> None:
+def replay(r: Dict[str, Any], show: bool = False) -> None:
     """re-run the real function on a recorded input (called from the checks' replay for kind == 'srctie')"""
-    print(json.dumps({k: v for k, v in r.items() if k != "log_tail"}, indent=1))
+    if show:
+        print(json.dumps({k: v for k, v in r.items() if k != "log_tail"}, indent=1))
     if "input" in r:
         sp = _space(r["target"])
         print("real function now:", _obs(lambda: sp["real"](r["input"])), " recorded:", r.get("real"))
